@@ -168,7 +168,7 @@ pub fn gen_hp(seed: u64, profile: &str, tier: Tier) -> HP {
             weights[0] = weights[0].max(40);
             weights[3] = weights[3].max(15);
         }
-        "C19" | "C10" | "C09" | "C08" => {
+        "C19" | "C11" | "C10" | "C09" | "C08" => {
             weights[3] = weights[3].max(10);
             weights[8] = weights[8].max(5);
         }
@@ -636,6 +636,7 @@ pub fn nontrivial_for(focus: &str, out: &RunOut) -> bool {
         "C08" => g("calls") > 5 && g("sends") > 0,
         "C09" => g("calls") > 5,
         "C10" => g("incarnation_bumps") + g("self_down_triggers") + g("self_suspicions_processed") > 0,
+        "C11" => g("c11_timeouts_taking_effect") + g("c11_timeouts_without_effect_expected") > 0,
         "C12" => g("c12_replies_owed") > 0,
         "C13" => g("c13_stale_timer_delivered") + g("c13_ledger_checks_active") > 0,
         "C15" => g("c15_nonempty_sections") > 0,
